@@ -10,6 +10,10 @@ package cisco
 //vc:  requires[C11] @notInConfMode !confMode
 //vc:  ensures[C11] @leavesConfMode !confMode
 //vc:  requires[C11] !isCompareRun || pass == loginPass
+// C17: the login password is sent a second time (as enable password) only in
+// answer to a password prompt; typed at the exec prompt it would be echoed by
+// the device and logged as a command in the .login file
+//vc:  assert[C17] at "waitPrompt(pass,"#2 @secretOnlyAtPasswordPrompt strings.HasSuffix(strings.ToLower(out), "password:")
 //vc:  ensures[C06] markerMissing ==> len(s.errUnmanaged) > 0
 //vc:  ensures[C09] @unmanagedErrorNotNil isnil(old(s.errUnmanaged)) && !isnil(s.errUnmanaged) ==> len(s.errUnmanaged) > 0 && s.errUnmanaged[0] != nil
 
